@@ -240,3 +240,23 @@ def extract_whole(O, rep, bound=2):
         O.inconclusive("vacuous: no Ok path through extract_output_values")
     cuts = [p for p in paths if p.outcome == "cut"]
     O.note("bounded to %d expected entries; %d paths beyond the bound were cut" % (bound, len(cuts)))
+
+
+class WithRep:
+    """Proxy of an obligation context that confirms every counterexample with the given Rep's battery and judge
+    (used when an analysis written for one property runs on behalf of another)."""
+
+    def __init__(self, O, rep):
+        self._O = O
+        self._rep = rep
+
+    def __getattr__(self, k):
+        return getattr(self._O, k)
+
+    def prove(self, path, claim, label, facts=None, scenarios=None, judge=None, extra=None, detail=None):
+        return self._O.prove(path, claim, label, dict(self._rep.facts, what=label[:90]), self._rep.battery, self._rep.judge,
+                             extra=extra, detail=detail)
+
+    def fail_path(self, path, label, facts=None, scenarios=None, judge=None, detail=None, extra=None):
+        return self._O.fail_path(path, label, dict(self._rep.facts, what=label[:90]), self._rep.battery, self._rep.judge,
+                                 detail=detail, extra=extra)
